@@ -205,7 +205,8 @@ inline char g_current_case[4096] = "(none)";
 
 inline void crash_handler(int sig)
 {
-    char const* msg = "\nCRASH signal while executing case: ";
+    char const* msg = sig == SIGALRM ? "\nHANG (per-case time limit exceeded) while executing case: "
+                                     : "\nCRASH signal while executing case: ";
     (void)!write(2, msg, std::strlen(msg));
     (void)!write(2, g_current_case, std::strlen(g_current_case));
     (void)!write(2, "\n", 1);
@@ -224,7 +225,12 @@ public:
         std::signal(SIGABRT, crash_handler);
         std::signal(SIGFPE, crash_handler);
         std::signal(SIGBUS, crash_handler);
+        std::signal(SIGALRM, crash_handler);
     }
+
+    // every case must finish within this many seconds (0 = no limit); a case that does not is
+    // reported like a crash, with its id
+    void set_case_timeout(unsigned seconds) { case_timeout_ = seconds; }
 
     args const& a() const { return args_; }
 
@@ -237,6 +243,7 @@ public:
             return false;
         }
         std::snprintf(g_current_case, sizeof g_current_case, "%s", id.c_str());
+        if (case_timeout_) alarm(case_timeout_);
         return true;
     }
 
@@ -315,6 +322,7 @@ public:
     // writes the JSON summary; returns the process exit code
     int finish()
     {
+        alarm(0);
         std::ostringstream o;
         o << "{\n";
         o << " \"evaluations\": " << evaluations_ << ",\n";
@@ -410,6 +418,7 @@ public:
 
 private:
     args args_;
+    unsigned case_timeout_ = 0;
     std::chrono::steady_clock::time_point start_;
     std::uint64_t evaluations_ = 0;
     std::uint64_t states_ = 0, transitions_ = 0, validated_ = 0;
